@@ -317,6 +317,8 @@ def check(prop, tier, seed, replay=None):
         if ok and any('"twin"' in l for l in open(replay)):
             ok, out = run.replay_hard(replay, ["TwinFull", "TwinCtl"], wd, module="TraceTwin")
         print(out[-3000:] if not ok else "replay: all predicates hold on " + replay)
+        if not ok:
+            print("VIOLATION property=%s replay=%s" % (prop, replay))
         return 0 if ok else 1
 
     phase = {}
